@@ -17,8 +17,10 @@ EXTENDS Integers, Sequences, FiniteSets, TLC, Json, IOUtils, Derive
 Progs == ndJsonDeserialize(IOEnv.PROGS)
 MaxSteps == IF "MAXSTEPS" \in DOMAIN IOEnv THEN atoi(IOEnv.MAXSTEPS) ELSE 20000
 
-VARIABLES pid, ctl, kont, heap, nxt, out, status, steps
-vars == <<pid, ctl, kont, heap, nxt, out, status, steps>>
+\* par: activations started by `go`.  One activation runs at a time (ctl, kont are its state); par.others holds the others,
+\* par.main tells whether the running one is main.  A program without `go` never changes par.
+VARIABLES pid, ctl, kont, heap, nxt, out, status, steps, par
+vars == <<pid, ctl, kont, heap, nxt, out, status, steps, par>>
 
 P == Progs[pid]
 Min(S) == CHOOSE x \in S : \A y \in S : x <= y
@@ -95,7 +97,7 @@ Match(p, v, env) ==
 E(e, env, tenv) == [t |-> "e", e |-> e, env |-> env, tenv |-> tenv]
 V(v) == [t |-> "v", v |-> v]
 Push(f) == <<f>> \o kont
-Tick == steps' = steps + 1 /\ UNCHANGED pid
+Tick == steps' = steps + 1 /\ UNCHANGED <<pid, par>>
 Stop(v) == /\ status' = IF v.k = "fail" THEN [k |-> "failed", why |-> v.why] ELSE [k |-> "unsupported", why |-> v.why]
            /\ UNCHANGED <<ctl, kont, heap, nxt, out>> /\ Tick
 Same == UNCHANGED <<heap, nxt, out, status>> /\ Tick
@@ -262,7 +264,8 @@ StepE ==
                  (IF e.tail = <<>> THEN Ret(VUnit) ELSE /\ ctl' = E(e.tail[1], env, tenv) /\ UNCHANGED kont /\ Same)
             ELSE /\ ctl' = E(e.stmts[1].e, env, tenv)
                  /\ kont' = Push([f |-> "blk", stmts |-> e.stmts, i |-> 1, tail |-> e.tail, env |-> env, tenv |-> tenv]) /\ Same
-       [] e.k = "go" -> Stop(VBad("go expression (handled by the threaded machine)"))
+       [] e.k = "go" -> IF "THREADS" \notin DOMAIN IOEnv THEN Stop(VBad("go expression (explored by the interleaving check of C09)"))
+                        ELSE /\ ctl' = E(e.e, env, tenv) /\ kont' = Push([f |-> "go", tenv |-> tenv]) /\ Same
        [] OTHER -> Stop(VBad("expression kind " \o e.k))
 
 \* ---------------------------------------------------------------- all operands evaluated: build the value / make the call
@@ -302,6 +305,10 @@ StepV ==
        [] f.f = "proj" -> RetPop(v.es[f.i + 1], rest)
        [] f.f = "field" -> RetPop(v.f[f.fld], rest)
        [] f.f = "todyn" -> RetPop([k |-> "dyn", trait |-> f.trait, v |-> v], rest)
+       [] f.f = "go" ->    \* `go e`: e has been evaluated to a function value by the spawner; exactly one new activation applies it to no
+                           \* arguments, and the spawner continues with ()
+            /\ par' = [par EXCEPT !.others = Append(@, [ctl |-> [t |-> "apply", node |-> [k |-> "callv"], vs |-> <<v>>, tenv |-> f.tenv], kont |-> <<>>, main |-> FALSE])]
+            /\ ctl' = V(VUnit) /\ kont' = rest /\ steps' = steps + 1 /\ UNCHANGED <<pid, heap, nxt, out, status>>
        [] f.f = "match" ->
             LET hits == {i \in DOMAIN f.arms : Match(f.arms[i].p, v, f.env).ok} IN
             IF hits = {} THEN Stop(VFail("no arm matches"))
@@ -319,14 +326,27 @@ StepV ==
                  (IF f.tail = <<>> THEN RetPop(VUnit, rest) ELSE /\ ctl' = E(f.tail[1], m.env, f.tenv) /\ kont' = rest /\ Same)
             ELSE /\ ctl' = E(f.stmts[f.i + 1].e, m.env, f.tenv) /\ kont' = <<[f EXCEPT !.i = f.i + 1, !.env = m.env]>> \o rest /\ Same
 
-Finish == /\ ctl.t = "v" /\ kont = <<>> /\ status' = [k |-> "ok", why |-> ""] /\ UNCHANGED <<ctl, kont, heap, nxt, out>> /\ Tick
-OutOfSteps == /\ steps >= MaxSteps /\ status' = [k |-> "inconclusive", why |-> "step bound"] /\ UNCHANGED <<pid, ctl, kont, heap, nxt, out, steps>>
+\* main returns: the program ends, whatever the other activations are doing; another activation ends: some other one goes on
+Finish == /\ ctl.t = "v" /\ kont = <<>>
+          /\ IF par.main THEN /\ status' = [k |-> "ok", why |-> ""] /\ UNCHANGED <<ctl, kont, heap, nxt, out>> /\ Tick
+             ELSE \E i \in DOMAIN par.others :
+                    /\ ctl' = par.others[i].ctl /\ kont' = par.others[i].kont
+                    /\ par' = [main |-> par.others[i].main, others |-> [j \in 1..(Len(par.others) - 1) |-> par.others[IF j < i THEN j ELSE j + 1]]]
+                    /\ steps' = steps + 1 /\ UNCHANGED <<pid, heap, nxt, out, status>>
+OutOfSteps == /\ steps >= MaxSteps /\ status' = [k |-> "inconclusive", why |-> "step bound"] /\ UNCHANGED <<pid, ctl, kont, heap, nxt, out, steps, par>>
+\* the scheduler: at any moment another activation may run instead of the current one
+Switch == \E i \in DOMAIN par.others :
+            /\ ctl' = par.others[i].ctl /\ kont' = par.others[i].kont
+            /\ par' = [main |-> par.others[i].main, others |-> [par.others EXCEPT ![i] = [ctl |-> ctl, kont |-> kont, main |-> par.main]]]
+            /\ UNCHANGED <<pid, heap, nxt, out, status, steps>>
 
 Init == /\ pid \in 1..Len(Progs)
         /\ ctl = E(P.fns["main"].body, EmptyEnv, EmptyEnv) /\ kont = <<>>
         /\ heap = (0 :> 0) /\ nxt = 1 /\ out = <<>> /\ status = [k |-> "running", why |-> ""] /\ steps = 0
+        /\ par = [main |-> TRUE, others |-> <<>>]
 Next == /\ status.k = "running"
-        /\ IF steps >= MaxSteps THEN OutOfSteps ELSE (StepE \/ StepApply \/ StepV \/ Finish)
+        /\ IF steps >= MaxSteps THEN OutOfSteps ELSE (StepE \/ StepApply \/ StepV \/ Finish \/ Switch)
+ViewNoSteps == <<pid, ctl, kont, heap, nxt, out, status, par>>
 Spec == Init /\ [][Next]_vars
 Report == status.k # "running" =>
             PrintT(<<"REPORT", ToJson([name |-> P.name, status |-> status.k, why |-> status.why, out |-> out, steps |-> steps])>>)
